@@ -184,6 +184,7 @@ type entFn struct {
 	axioms  []Formula
 	axSeen  map[string]bool
 	atomObj map[Atom][]types.Object // locals an atom mentions (for the closure rule)
+	effEnd  map[ast.Node]token.Pos  // post statements of for loops take effect at the end of the body
 	family  func(*types.Func) bool  // evaluator-family predicate (contract axioms), may be nil
 }
 
@@ -211,7 +212,7 @@ func (w *World) ent(f *Func) *entFn {
 	if e := entCache[root]; e != nil {
 		return e
 	}
-	e := &entFn{w: w, root: root, info: root.Pkg.TypesInfo, assigns: map[types.Object][]ast.Node{}, addrOf: map[types.Object]bool{}, axSeen: map[string]bool{}, atomObj: map[Atom][]types.Object{}}
+	e := &entFn{w: w, root: root, info: root.Pkg.TypesInfo, assigns: map[types.Object][]ast.Node{}, addrOf: map[types.Object]bool{}, axSeen: map[string]bool{}, atomObj: map[Atom][]types.Object{}, effEnd: map[ast.Node]token.Pos{}}
 	entCache[root] = e
 	info := e.info
 	record := func(x ast.Expr, at ast.Node) {
@@ -230,6 +231,12 @@ func (w *World) ent(f *Func) *entFn {
 		}
 	}
 	ast.Inspect(root.Node(), func(n ast.Node) bool {
+		switch n := n.(type) {
+		case *ast.ForStmt:
+			if n.Post != nil {
+				e.effEnd[n.Post] = n.Body.End()
+			}
+		}
 		switch n := n.(type) {
 		case *ast.AssignStmt:
 			for _, l := range n.Lhs {
@@ -304,6 +311,45 @@ func (e *entFn) pureCall(c *ast.CallExpr) bool {
 	return false
 }
 
+// valueOnlyCall: builtins and library functions whose result is a function of the argument values alone.
+func (e *entFn) valueOnlyCall(c *ast.CallExpr) bool {
+	if tv, ok := e.info.Types[c.Fun]; ok && tv.IsType() {
+		return true
+	}
+	if id, ok := unparen(c.Fun).(*ast.Ident); ok {
+		if b, ok := e.info.Uses[id].(*types.Builtin); ok {
+			switch b.Name() {
+			case "len", "cap", "min", "max":
+				return true
+			}
+			return false
+		}
+	}
+	callee := calleeOf(e.info, c)
+	if callee == nil || callee.Pkg() == nil {
+		return false
+	}
+	switch callee.Pkg().Path() {
+	case "strings", "strconv", "math", "unicode", "unicode/utf8", "unicode/utf16":
+		// methods of strings.Builder/Reader read mutable receivers
+		if sig, ok := callee.Type().(*types.Signature); ok && sig.Recv() != nil {
+			return false
+		}
+		return true
+	case "reflect":
+		if sig, ok := callee.Type().(*types.Signature); ok && sig.Recv() != nil {
+			rt := typeStr(sig.Recv().Type())
+			return rt == "reflect.Type" || rt == "reflect.Value" || rt == "reflect.Kind"
+		}
+		return callee.Name() == "TypeOf"
+	case "regexp":
+		if sig, ok := callee.Type().(*types.Signature); ok && sig.Recv() != nil {
+			return strings.HasPrefix(callee.Name(), "Match") || strings.HasPrefix(callee.Name(), "Find")
+		}
+	}
+	return false
+}
+
 // immutableStruct: objects of these struct types are never written after construction (checked by C01.R9 and the A1 rule).
 func immutableOwner(v *types.Var) bool {
 	if v == nil || v.Pkg() == nil {
@@ -342,6 +388,13 @@ func (e *entFn) version(obj types.Object, s site) string {
 	}
 	latest := token.NoPos
 	for _, a := range e.assigns[obj] {
+		if eff, isPost := e.effEnd[a]; isPost {
+			// runs after the loop body: visible to what follows the loop, and (through the loop component) to the next iteration
+			if eff <= s.pos && eff > latest {
+				latest = eff
+			}
+			continue
+		}
 		if a.End() <= s.pos && a.Pos() > latest {
 			latest = a.Pos()
 		} else if rs, ok := a.(*ast.RangeStmt); ok && rs.Pos() <= s.pos && s.pos <= rs.End() && rs.Pos() > latest {
@@ -466,6 +519,10 @@ func (k keyCtx) key(x ast.Expr) string {
 			args = append(args, k.key(a))
 		}
 		s := k.key(x.Fun) + "(" + strings.Join(args, ",") + ")"
+		if e.valueOnlyCall(x) {
+			// the result depends on the argument values only, which carry their own versions
+			return s
+		}
 		if e.pureCall(x) {
 			// a pure call on mutable state is versioned by the barriers since
 			return s + "~" + e.barrierVersion(nil, k.siteOf(x))
@@ -1071,6 +1128,46 @@ func (e *entFn) buildAxioms(atoms map[Atom]bool) []Formula {
 			}
 		}
 	}
+	// (v) transitivity over the lt atoms that are present:  a<b ∧ b<c ⇒ a<c ;  a<b ∧ ¬(c<b) ⇒ a<c ;  ¬(b<a) ∧ b<c ⇒ a<c
+	type ltA struct{ l, r string }
+	lts := map[ltA]Atom{}
+	for a := range atoms {
+		s := string(a)
+		if strings.HasPrefix(s, "lt(") {
+			inner := s[3 : len(s)-1]
+			// forms end with a signed constant ("+0", "-1", …): the separating comma follows one
+			for i := 1; i < len(inner); i++ {
+				if inner[i] == ',' && (inner[i-1] >= '0' && inner[i-1] <= '9') && i+1 < len(inner) && (inner[i+1] == '+' || inner[i+1] == '-') {
+					lts[ltA{inner[:i], inner[i+1:]}] = a
+				}
+			}
+		}
+	}
+	for k1, a1 := range lts { // a<b
+		for k2, a2 := range lts {
+			if k1 == k2 {
+				continue
+			}
+			// a<b ∧ b<c ⇒ a<c
+			if k1.r == k2.l {
+				if a3, ok := lts[ltA{k1.l, k2.r}]; ok {
+					ax = append(ax, Or{Not{a1}, Not{a2}, a3})
+				}
+			}
+			// a<b ∧ ¬(c<b) ⇒ a<c      (k2 = c<b)
+			if k1.r == k2.r && k1.l != k2.l {
+				if a3, ok := lts[ltA{k1.l, k2.l}]; ok {
+					ax = append(ax, Or{Not{a1}, a2, a3})
+				}
+			}
+			// ¬(b<a) ∧ b<c ⇒ a<c      (k1 = b<a, k2 = b<c)
+			if k1.l == k2.l && k1.r != k2.r {
+				if a3, ok := lts[ltA{k1.r, k2.r}]; ok {
+					ax = append(ax, Or{a1, Not{a2}, a3})
+				}
+			}
+		}
+	}
 	return append(ax, e.axioms...)
 }
 
@@ -1083,7 +1180,7 @@ func nonNegForm(form string) bool {
 	if strings.Contains(body, "+1*") || strings.Contains(body, "-1*") {
 		return false
 	}
-	return strings.HasPrefix(body, "len(") || strings.HasPrefix(body, "cap(") || strings.Contains(body, ".Size()~") || strings.Contains(body, ".NumIn()~") || strings.Contains(body, ".NumOut()~")
+	return strings.HasPrefix(body, "len(") || strings.HasPrefix(body, "cap(") || strings.Contains(body, ".Size()~") || strings.HasSuffix(body, ".NumIn()") || strings.HasSuffix(body, ".NumOut()")
 }
 
 func flattenAnd(f Formula, out *[]Formula) {
